@@ -279,10 +279,12 @@ fn float_judge(c: &FloatCase, obs: &mut Obs) -> Result<(), String> {
         if (g64 - real64).abs() > m64 * 2f64.powi(-22) + 3.0e-45 {
             return Err(format!("f64 lerp({},{},{x:?}) = {g64}, real interpolation {real64} (beyond f32 precision)", c.a64, c.b64));
         }
-        if x == 0.0 && (g64 - c.a64).abs() > m64 * 2f64.powi(-23) + 3.0e-45 {
+        // endpoints are exactly representable in f32 here, so the laws hold exactly
+        let _ = m64;
+        if x == 0.0 && g64 != c.a64 {
             return Err(format!("f64 lerp({},{},0) = {g64}", c.a64, c.b64));
         }
-        if x == 1.0 && (g64 - c.b64).abs() > m64 * 2f64.powi(-23) + 3.0e-45 {
+        if x == 1.0 && g64 != c.b64 {
             return Err(format!("f64 lerp({},{},1) = {g64}", c.a64, c.b64));
         }
         // glam vectors: component-wise == the scalar implementation, bit for bit
